@@ -326,10 +326,16 @@ def validate_trace(ctx, module, path, label, cfg=None, timeout=900, heap="3g", m
         overflow = any("verflow" in e for e in r.errors) or "verflow" in r.out
         hard = [e for e in r.errors if "POSTCONDITION" not in e.upper() and "ostcondition" not in e]
         if rej is None and not hard and r.rc == 0:
-            if rounds == 1 and expect_actions:
+            if expect_actions:
+                # every record was consumed by the action named after its op: an op that never
+                # occurs in the accepted trace means that action was never exercised (vacuity guard)
+                seen = {}
+                for rec in recs:
+                    seen[rec.get("op")] = seen.get(rec.get("op"), 0) + 1
                 for a in expect_actions:
-                    if r.coverage and r.coverage.get(a, (0, 0))[1] == 0:
+                    if not seen.get(a):
                         ctx.vacuous.append("%s:%s" % (module, a))
+                ctx.sub[-1]["events_per_action"] = seen
             break
         if rej is None:
             # evaluation error (e.g. 32-bit overflow inside TLC): find the record being consumed
